@@ -356,9 +356,53 @@ def rule_mypy_str_bytes(ctx: Ctx, rule: str) -> None:
     lines = [ln for ln in p.stdout.splitlines() if ': error:' in ln]
     if p.returncode not in (0, 1):
         raise AnalysisError('mypy failed: ' + (p.stderr or p.stdout)[-300:])
-    hits = [ln for ln in lines if 'bytes' in ln and 'str' in ln]
+    import re as _re
+
+    def lost_narrowing(ln: str) -> bool:
+        # `expression has type "bytes | str"`: both alternatives are still present in the value mypy sees, i.e. it could not
+        # follow the test that selects one of them (a boolean local instead of an inline isinstance) -- no evidence of a mix-up
+        m = _re.search(r'expression has type "([^"]*)"', ln)
+        return bool(m and '|' in m.group(1) and 'str' in m.group(1) and 'bytes' in m.group(1))
+    hits = [ln for ln in lines if 'bytes' in ln and 'str' in ln and not lost_narrowing(ln)]
     ctx.count('mypy_diagnostics', len(lines))
-    ctx.ob(rule, 'package/mypy-str-bytes', not hits, hits[0].split(': error:')[0] if hits else 'wcmatch/', 'no str/bytes type confusion', 'clean' if not hits else '; '.join(h.strip()[:160] for h in hits[:3]),
+    ctx.count('mypy_str_bytes_diagnostics', len(hits))
+    # advisory only: mypy reports the same `[assignment]` diagnostic for a behaviour-preserving edit that replaces an inline
+    # isinstance test by a boolean local (it cannot narrow through the local) and for a real str/bytes mix-up, so the
+    # diagnostics cannot decide the property; they are recorded in the evidence, the decision is made by the value tables below
+    if hits:
+        ctx.notes.append('mypy (advisory, not a verdict): ' + '; '.join(h.strip()[:140] for h in hits[:3]))
+    rule_wcmatch_init_types(ctx, rule)
+
+
+def rule_wcmatch_init_types(ctx: Ctx, rule: str) -> None:
+    """WcMatch.__init__: the separator and the default patterns have the type of root_dir (slice table)."""
+    from ..slicer import slice_function
+    from ..symeval import focus
+    repo = ctx.repo
+    fi = repo.func('wcmatch', 'WcMatch.__init__')
+    sl = slice_function(fi, {'self._sep', 'self.pattern_file', 'self.pattern_folder_exclude'}, keep_exits=False, name='typed-attrs')
+    ev = SymEval(repo, inline=False)
+    args = {p: Opaque(p) for p in fi.params() if p != 'self'}
+    paths = ev.tabulate(sl, args, Obj(('wcmatch', 'WcMatch')))
+    bad = []
+    for p in paths:
+        focus(p)
+        isb = p.decisions.get('isinstance(root_dir, bytes)')
+        if isb is None:
+            bad.append('the type of root_dir is not consulted')
+            continue
+        if _tag(p.attrs.get('_sep')) != ('os.fsencode(os.sep)' if isb else 'os.sep'):
+            bad.append(f'bytes={isb}: _sep = {_tag(p.attrs.get("_sep"))}')
+        for attr, par in (('pattern_file', 'file_pattern'), ('pattern_folder_exclude', 'exclude_pattern')):
+            given = p.decisions.get(f'{par} is not None')
+            v = p.attrs.get(attr)
+            if given is None:
+                given = p.decisions.get(par)  # truthiness used instead of `is not None`
+            want = par if given else ("os.fsencode('')" if isb else "''")
+            if _tag(v) not in (want, "b''" if (isb and not given) else want):
+                bad.append(f'bytes={isb} {par} given={given}: self.{attr} = {_tag(v)}')
+    ctx.ob(rule, 'wcmatch:WcMatch.__init__/typed-defaults', not bad and len(paths) >= 8, repo.loc('wcmatch', fi.node),
+           'self._sep and the default (empty) patterns are bytes iff root_dir is bytes; given patterns are kept', f'{len(paths)} rows agree' if not bad else sorted(set(bad))[0],
            witness="WcMatch(b'.', None) must use a bytes catch-all pattern: every bytes file name would raise TypeError and be swallowed as an error")
 
 
@@ -641,15 +685,41 @@ def rule_sequence_shape(ctx: Ctx, rule: str) -> None:
 
 
 def rule_is_hidden(ctx: Ctx, rule: str) -> None:
-    ctx.text(rule, 'util.is_hidden: a base name starting with `.` is hidden on every platform; otherwise only platform attributes decide')
+    ctx.text(rule, 'util.is_hidden (decision table, sys.platform symbolic): a base name starting with `.` (str or bytes) is hidden on every '
+                   'platform and no file-system call is needed for it; otherwise only the platform attribute decides (win32: '
+                   'FILE_ATTRIBUTE_HIDDEN, darwin: UF_HIDDEN, elsewhere: not hidden)')
+    from .common import api_table
+    from ..symeval import focus
     repo = ctx.repo
     fi = repo.func('util', 'is_hidden')
-    q = fq(fi)
-    sets = [s for s in q.stmts(lambda n: isinstance(n, ast.Assign)) if norm_src(s) == 'hidden = True']
-    ok = len(sets) == 1 and any(t.replace('"', "'") in ("f[:1] in ('.', b'.')", "f[0:1] in ('.', b'.')") and p == 'T' for t, p in q.guards(sets[0]))
-    base = [s for s in q.stmts(lambda n: isinstance(n, ast.Assign)) if norm_src(s.targets[0]) == 'f']
-    ok = ok and len(base) == 1 and norm_src(base[0].value) == 'os.path.basename(path)'
-    ctx.ob(rule, 'util:is_hidden/dot-files', ok, repo.loc('util', fi.node), "f = os.path.basename(path); if f[:1] in ('.', b'.'): hidden = True", str(ok),
-           witness="WcMatch('.', '*') must skip '.git' (str and bytes) unless HIDDEN")
-    rets = [r for r in walk_no_nested(fi.node) if isinstance(r, ast.Return)]
-    ctx.ob(rule, 'util:is_hidden/returns', len(rets) == 1 and norm_src(rets[0].value) == 'hidden', repo.loc('util', fi.node), 'return hidden', str(len(rets)))
+    _ev, paths = api_table(repo, 'util', 'is_hidden')
+    bad_d, bad_p = [], []
+    for p in paths:
+        focus(p)
+        d = p.decisions
+        dots = {k: v for k, v in d.items() if k.startswith('os.path.basename(path)[:1] == ') or k.startswith('os.path.basename(path)[0:1] == ')}
+        dot = any(dots.values())
+        consts = sorted(k.split(' == ', 1)[1] for k in dots)
+        if dot:
+            if as_bool_(p) is not True or p.calls_to('os.lstat') or p.calls_to('os.stat'):
+                bad_d.append(f'dot name: returns {p.ret!r}, fs calls {len(p.calls_to("os.lstat"))}')
+            continue
+        if consts != ["'.'", "b'.'"]:
+            bad_d.append(f'not a dot name decided by {consts}')
+            continue
+        win, mac = d.get("sys.platform == 'win32'"), d.get("sys.platform == 'darwin'")
+        if win is None or (win is False and mac is None):
+            bad_p.append('platform not consulted for a non-dot name')
+        elif not win and not mac and as_bool_(p) is not False:
+            bad_p.append(f'other platform: returns {p.ret!r}')
+        elif (win or mac) and len(p.calls_to('os.lstat')) != 1:
+            bad_p.append('platform attribute not read with os.lstat(path)')
+    ctx.ob(rule, 'util:is_hidden/dot-files', not bad_d and len(paths) >= 4, repo.loc('util', fi.node), "basename(path)[:1] in ('.', b'.') -> True, on every platform, without touching the file system",
+           f'{len(paths)} rows agree' if not bad_d else bad_d[0], witness="WcMatch('.', '*') must skip '.git' (str and bytes) unless HIDDEN")
+    ctx.ob(rule, 'util:is_hidden/returns', not bad_p and len(paths) >= 4, repo.loc('util', fi.node), 'other names: hidden only by the platform attribute (win32 / darwin), False elsewhere',
+           'as expected' if not bad_p else bad_p[0])
+
+
+def as_bool_(p: Any) -> Any:
+    from .common import as_bool
+    return as_bool(p, p.ret)
